@@ -291,7 +291,7 @@ Section Inv.
     { unfold st1. destruct (c_id m =? 0); [|repeat split; auto].
       destruct (tmp st2 tk) eqn:L; repeat split; auto; simpl.
       - intros tk' Hn. apply alookup_aset_other; [exact tkey_eqb_eq|exact Hn].
-      - apply alookup_aset_same. exact tkey_eqb_eq. }
+      - apply alookup_aset_same; exact tkey_eqb_eq. }
     destruct E1 as [A1 [A2 [A3 [A4 [A5 A6]]]]].
     destruct (tmp st1 tk) as [files|] eqn:L; [|discriminate].
     exists files.
@@ -434,5 +434,105 @@ Section Inv.
         * intros tk files Hk L. exfalso.
           refine (NoTmp (untrack (key_of m) (remove_temp (tkey_of m) st1)) _ _ tk files Hk L);
             [intros tk0 Hn; apply (RmTmp st1); exact Hn|apply (RmTmp0 st1)].
+  Qed.
+
+  (* the invariant for the chunk's own snapshot after Add *)
+  Lemma add_inv_key :
+    forall h (st st' : state) m d b,
+      inv h st -> addM st (m, d) = Done st' b -> invK (h ++ [(m, d)]) st' (key_of m).
+  Proof.
+    intros h st st' m d b [I ND] H.
+    destruct (I (key_of m)) as [I1 [I2 I3]].
+    assert (W : invK (h ++ [(m, d)]) st (key_of m)) by (apply invK_weaken; split; [|split]; assumption).
+    unfold add in H. simpl fst in H.
+    destruct (c_did m =? my_did) eqn:Edid; cbn [negb orb] in H; [|injection H as H1 H2; subst; exact W].
+    destruct (c_binver m =? transport_bin_version) eqn:Ebv; cbn [negb orb] in H; [|injection H as H1 H2; subst; exact W].
+    apply N.eqb_eq in Edid. apply N.eqb_eq in Ebv.
+    rewrite add_locked_cont in H. unfold record in H.
+    destruct (c_id m =? 0) eqn:Eid.
+    - (* a first chunk *)
+      apply N.eqb_eq in Eid.
+      set (discard := fun s : state =>
+                        match trk st (key_of m) with
+                        | Some td => remove_temp (tkey_of (t_first td)) s
+                        | None => s
+                        end) in *.
+      set (is_full := match trk st (key_of m) with Some _ => false | None => full max_slots st end) in *.
+      assert (T0 : forall tk, tkey_key tk = key_of m -> tmp (discard st) tk = None).
+      { intros tk Hk. unfold discard. destruct (tmp st tk) as [files|] eqn:L.
+        - destruct (I3 tk files Hk L) as [td' [A B]]. rewrite A. subst tk. simpl.
+          apply alookup_adel_same; exact tkey_eqb_eq.
+        - destruct (trk st (key_of m)); auto. simpl. apply alookup_adel_none; exact L. }
+      assert (Fd : s_finals (discard st) = s_finals st /\ s_removed (discard st) = s_removed st)
+        by (unfold discard; destruct (trk st (key_of m)); split; reflexivity).
+      destruct Fd as [Fd Rd].
+      (* all accepting branches reach [start (discard st) v0] with the validator verdict v0 *)
+      assert (Start : forall v0,
+                 (if c_hasfi m then VOk vinit else vadd vinit d 0) = VOk v0 ->
+                 cont (track (key_of m) (mkTracked m v0 (add_fileinfo m []) (s_tick (discard st)) 1) (discard st))
+                      (mkTracked m v0 (add_fileinfo m []) (s_tick (discard st)) 1) (m, d) = Done st' b ->
+                 invK (h ++ [(m, d)]) st' (key_of m)).
+      { intros v0 Hv0 Hc.
+        refine (cont_inv (h ++ [(m, d)]) _ st' _ m d [] b _ _ _ _ _ _ _ _ Hc).
+        - simpl. apply alookup_aset_same; exact key_eqb_eq.
+        - constructor; simpl; auto.
+          + eauto.
+          + constructor; [|constructor]. simpl. auto.
+        - simpl. apply subseq_single.
+        - reflexivity.
+        - reflexivity.
+        - intros tk Hk Hn. simpl. apply T0. exact Hk.
+        - intros fd L. simpl in L. rewrite Fd in L. destruct W as [_ [W2 _]]. auto.
+        - intro R. split; [constructor|]. exists []. split; [reflexivity|]. split.
+          + rewrite Eid. simpl. split; [apply T0; reflexivity|reflexivity].
+          + intros v' Hval. unfold validated in Hval. rewrite Eid in Hval. simpl in Hval.
+            rewrite andb_false_r in Hval. injection Hval as Hval; subst v'.
+            simpl. rewrite Eid. destruct (c_hasfi m).
+            * injection Hv0 as Hv0; subst. reflexivity.
+            * rewrite Hv0. reflexivity. }
+      destruct (c_hasfi m) eqn:Hfi.
+      + destruct is_full; [injection H as H1 H2; subst; exact W|].
+        apply (Start vinit); auto.
+      + destruct (vadd vinit d 0) as [v0|v0|] eqn:Va; try discriminate.
+        * destruct is_full; [injection H as H1 H2; subst; exact W|].
+          apply (Start v0); auto.
+        * injection H as H1 H2; subst; exact W.
+    - (* a later chunk *)
+      apply N.eqb_neq in Eid.
+      destruct (trk st (key_of m)) as [td0|] eqn:Ltr; [|injection H as H1 H2; subst; exact W].
+      destruct (t_next td0 =? c_id m) eqn:Enext; simpl in H; [|injection H as H1 H2; subst; exact W].
+      destruct (c_from (t_first td0) =? c_from m) eqn:Efrom; simpl in H; [|injection H as H1 H2; subst; exact W].
+      apply N.eqb_eq in Enext. apply N.eqb_eq in Efrom.
+      destruct (I1 td0 eq_refl) as [acc [Sq [P Lv]]].
+      destruct P as [[d0 [r Hacc]] Pk Pids Psame Pnext Pfiles].
+      assert (Hkk : key_of m = key_of (t_first td0)) by (symmetry; exact Pk).
+      assert (Htk : tkey_of (t_first td0) = tkey_of m) by (symmetry; apply tkey_of_same; auto).
+      assert (Hnd : node_of (t_first td0) = node_of m) by (symmetry; apply node_of_same; auto).
+      refine (cont_inv (h ++ [(m, d)]) _ st' _ m d acc b _ _ _ _ _ _ _ _ H).
+      + simpl. apply alookup_aset_same; exact key_eqb_eq.
+      + constructor; cbn [t_first t_next t_files].
+        * exists d0, (r ++ [(m, d)]). rewrite Hacc. reflexivity.
+        * exact Pk.
+        * apply ids_from_snoc; auto. rewrite N.add_0_l. rewrite <- Enext. exact Pnext.
+        * apply same_stream_snoc; auto.
+        * rewrite nlen_snoc. rewrite <- Enext. f_equal. exact Pnext.
+        * rewrite fileinfos_snoc. rewrite <- Pfiles. reflexivity.
+      + apply subseq_snoc. exact Sq.
+      + exact Hnd.
+      + exact Htk.
+      + intros tk Hk Hn. simpl. destruct (tmp st tk) as [files|] eqn:L; auto.
+        destruct (I3 tk files Hk L) as [td' [A B]]. injection A as A; subst td'.
+        exfalso. apply Hn. rewrite <- B. exact Htk.
+      + intros fd L. simpl in L. destruct W as [_ [W2 _]]. auto.
+      + intro R. unfold is_removed in R. simpl in R. rewrite <- Hnd in R.
+        destruct (Lv R) as [Nl [Vf [files [Rp Tp]]]].
+        split; [exact Nl|]. exists files. split; [exact Rp|]. split.
+        * apply N.eqb_neq in Eid. rewrite Eid. simpl. rewrite <- Htk. exact Tp.
+        * intros v' Hval. unfold validated in Hval. simpl t_v in Hval.
+          refine (eq_trans (vfold_snoc D V vadd acc vinit (t_v td0) (m, d) Vf) _). simpl.
+          apply N.eqb_neq in Eid. rewrite Eid in Hval. rewrite andb_true_r in Hval.
+          destruct (c_hasfi m); simpl in Hval.
+          -- injection Hval as Hval; subst. reflexivity.
+          -- rewrite Hval. reflexivity.
   Qed.
 End Inv.
